@@ -60,11 +60,18 @@ Proof.
     + inversion H; subst. split; lia.
 Qed.
 
-Lemma read_rune_cons : forall r t pos line col,
+Lemma read_rune_cons : forall r t pos line col, (r =? 0) = false ->
   snd (read_rune {| c_rest := r :: t; c_pos := pos; c_line := line; c_col := col |}) =
   {| c_rest := t; c_pos := pos + 1; c_line := (if r =? r_lf then line + 1 else line);
      c_col := (if r =? r_lf then 1 else col + 1) |}.
-Proof. intros. unfold read_rune. simpl. destruct (r =? r_lf); reflexivity. Qed.
+Proof. intros r t pos line col H0. unfold read_rune. simpl. rewrite H0. destruct (r =? r_lf); reflexivity. Qed.
+(* a NUL byte is not consumed *)
+Lemma read_rune_nul : forall r t pos line col, (r =? 0) = true ->
+  read_rune {| c_rest := r :: t; c_pos := pos; c_line := line; c_col := col |} =
+  (0, {| c_rest := r :: t; c_pos := pos; c_line := line; c_col := col |}).
+Proof. intros r t pos line col H0. unfold read_rune. simpl. rewrite H0. reflexivity. Qed.
+Lemma nul_not_ws : forall r, (r =? 0) = true -> is_ws r = false.
+Proof. intros r H. apply N.eqb_eq in H. subst. reflexivity. Qed.
 
 Ltac inj H := injection H; clear H; intros; subst.
 
@@ -77,10 +84,10 @@ Proof.
   intros L HL. induction l as [|r t IH]; intros pos line col en le ce c' en' le' ce' HP He H.
   - simpl in H. inversion H; subst. unfold cur_ok; simpl. rewrite len_nil in *. lia.
   - cbn [comment_loop] in H.
-    rewrite read_rune_cons in H. cbn [c_pos c_rest c_line c_col] in H.
     rewrite len_cons in HP.
-    destruct (r =? 0).
-    { inj H. unfold cur_ok. simpl. lia. }
+    destruct (r =? 0) eqn:E0.
+    { rewrite (read_rune_nul _ _ _ _ _ E0) in H. inj H. unfold cur_ok. simpl. rewrite len_cons. lia. }
+    rewrite (read_rune_cons _ _ _ _ _ E0) in H. cbn [c_pos c_rest c_line c_col] in H.
     destruct ((r =? r_cr) || (r =? r_lf)).
     { destruct (peek_nonws t =? r_hash).
       - apply IH in H; unfold cur_ok in *; lia.
@@ -98,14 +105,16 @@ Proof.
   intros L HL. induction l as [|r t IH]; intros pos line col esc c' en' le' ce' HP H.
   - simpl in H. inversion H; subst. unfold cur_ok; simpl. rewrite len_nil in *. rewrite u32_id by lia. lia.
   - cbn [sstring_loop] in H.
-    rewrite read_rune_cons in H. cbn [c_pos c_rest c_line c_col] in H.
     rewrite len_cons in HP.
     assert (HIH : forall line1 col1 esc', sstring_loop t (pos + 1) line1 col1 esc' = (c', (en', le', ce')) ->
                   cur_ok L c' /\ pos <= c_pos c' /\ pos <= en' /\ en' <= c_pos c').
     { intros line1 col1 esc' H'. apply IH in H'; unfold cur_ok in *; lia. }
+    destruct (r =? 0) eqn:E0.
+    { rewrite (read_rune_nul _ _ _ _ _ E0) in H. cbn [snd c_pos c_rest c_line c_col] in H.
+      assert (Hsp : (r =? r_space) || (r =? r_tab) = false) by (apply N.eqb_eq in E0; subst; reflexivity).
+      rewrite Hsp in H. rewrite u32_id in H by lia. inj H. unfold cur_ok. simpl. rewrite len_cons. lia. }
+    rewrite (read_rune_cons _ _ _ _ _ E0) in H. cbn [c_pos c_rest c_line c_col] in H.
     destruct ((r =? r_space) || (r =? r_tab)); [eapply HIH; eassumption|].
-    destruct (r =? 0).
-    { rewrite u32_id in H by lia. inj H. unfold cur_ok. simpl. lia. }
     destruct ((r =? r_quote) || (r =? r_cr) || (r =? r_lf)).
     { destruct esc; [eapply HIH; eassumption|].
       rewrite sub32_id in H by lia. inj H. unfold cur_ok. simpl. lia. }
@@ -113,6 +122,13 @@ Proof.
 Qed.
 
 (* ---- block strings: the Start += leading / End -= trailing adjustments never cross ---- *)
+Lemma quotes_content_le : forall qc r ws reached lead,
+  let '(ws1, _, lead1) := quotes_content qc r ws reached lead in lead1 + ws1 <= lead + ws.
+Proof.
+  intros. unfold quotes_content.
+  destruct (negb (qc =? 0) && negb (r =? r_quote)); [destruct reached|]; lia.
+Qed.
+
 Lemma bstring_loop_spec : forall L, L < two32 -> forall s0 l pos line col esc qc ws reached lead c' en' le' ce' lead' ws',
   pos + len l = L ->
   s0 + lead + ws + qc <= pos ->
@@ -120,28 +136,34 @@ Lemma bstring_loop_spec : forall L, L < two32 -> forall s0 l pos line col esc qc
   cur_ok L c' /\ pos <= c_pos c' /\ s0 + lead' + ws' <= en' /\ en' <= c_pos c'.
 Proof.
   intros L HL s0. induction l as [|r t IH]; intros pos line col esc qc ws reached lead c' en' le' ce' lead' ws' HP HI H.
-  - simpl in H. inversion H; subst. unfold cur_ok; simpl. rewrite len_nil in *. rewrite u32_id by lia. lia.
-  - cbn [bstring_loop] in H.
-    rewrite read_rune_cons in H. cbn [c_pos c_rest c_line c_col] in H.
-    rewrite len_cons in HP. cbv zeta in H.
-    assert (HIH : forall line1 col1 esc' qc' ws1 reached' lead1,
-               s0 + lead1 + ws1 + qc' <= pos + 1 ->
-               bstring_loop t (pos + 1) line1 col1 esc' qc' ws1 reached' lead1 = (c', (en', le', ce'), lead', ws') ->
+  - cbn [bstring_loop] in H. pose proof (quotes_content_le qc 0 ws reached lead) as Hq.
+    destruct (quotes_content qc 0 ws reached lead) as [[ws1 reached1] lead1].
+    inversion H; subst. unfold cur_ok; simpl. rewrite len_nil in *. rewrite u32_id by lia. lia.
+  - cbn [bstring_loop] in H. rewrite len_cons in HP. cbv zeta in H.
+    pose proof (quotes_content_le qc r ws reached lead) as Hq.
+    destruct (quotes_content qc r ws reached lead) as [[ws1 reached1] lead1].
+    destruct (r =? 0) eqn:E0.
+    { rewrite (read_rune_nul _ _ _ _ _ E0) in H. cbn [snd c_pos c_rest c_line c_col] in H.
+      assert (Hsp : (r =? r_space) || (r =? r_tab) || (r =? r_cr) || (r =? r_lf) = false)
+        by (apply N.eqb_eq in E0; subst; reflexivity).
+      rewrite Hsp in H. rewrite u32_id in H by lia. inj H. unfold cur_ok. simpl. rewrite len_cons. lia. }
+    rewrite (read_rune_cons _ _ _ _ _ E0) in H. cbn [c_pos c_rest c_line c_col] in H.
+    assert (HIH : forall line1 col1 esc' qc' ws2 reached' lead2,
+               s0 + lead2 + ws2 + qc' <= pos + 1 ->
+               bstring_loop t (pos + 1) line1 col1 esc' qc' ws2 reached' lead2 = (c', (en', le', ce'), lead', ws') ->
                cur_ok L c' /\ pos <= c_pos c' /\ s0 + lead' + ws' <= en' /\ en' <= c_pos c').
-    { intros line1 col1 esc' qc' ws1 reached' lead1 HI' H'. apply IH in H'; unfold cur_ok in *; lia. }
+    { intros line1 col1 esc' qc' ws2 reached' lead2 HI' H'. apply IH in H'; unfold cur_ok in *; lia. }
     destruct ((r =? r_space) || (r =? r_tab) || (r =? r_cr) || (r =? r_lf)).
     { eapply HIH; [|eassumption]. lia. }
-    destruct (r =? 0).
-    { rewrite u32_id in H by lia. inj H. unfold cur_ok. simpl. lia. }
-    destruct (r =? r_quote).
+    destruct (r =? r_quote) eqn:Eq.
     { destruct esc.
       - eapply HIH; [|eassumption]. lia.
-      - destruct (qc + 1 =? 3) eqn:Hq.
-        + apply N.eqb_eq in Hq. rewrite sub32_id in H by lia. inj H. unfold cur_ok. simpl. lia.
+      - destruct (qc + 1 =? 3) eqn:Hq3.
+        + apply N.eqb_eq in Hq3. rewrite sub32_id in H by lia. inj H. unfold cur_ok. simpl. lia.
         + eapply HIH; [|eassumption]. lia. }
     destruct (r =? r_backslash).
-    { eapply HIH; [|eassumption]. lia. }
-    destruct reached.
+    { eapply HIH; [|eassumption]. destruct reached1; lia. }
+    destruct reached1.
     + eapply HIH; [|eassumption]. lia.
     + eapply HIH; [|eassumption]. lia.
 Qed.
@@ -180,11 +202,11 @@ Proof.
   apply digits_run_spec in E4. unfold adv; simpl. lia.
 Qed.
 
-Lemma read_rune_cons_full : forall r t pos line col,
+Lemma read_rune_cons_full : forall r t pos line col, (r =? 0) = false ->
   read_rune {| c_rest := r :: t; c_pos := pos; c_line := line; c_col := col |} =
   (r, {| c_rest := t; c_pos := pos + 1; c_line := (if r =? r_lf then line + 1 else line);
          c_col := (if r =? r_lf then 1 else col + 1) |}).
-Proof. intros. unfold read_rune. simpl. destruct (r =? r_lf); reflexivity. Qed.
+Proof. intros r t pos line col H0. unfold read_rune. simpl. rewrite H0. destruct (r =? r_lf); reflexivity. Qed.
 
 (* ---- Read: stays inside the input, literal range well-formed, progress unless EOF ---- *)
 Lemma read_spec : forall L c0 t c', L < two32 -> cur_ok L c0 -> read c0 = (t, c') ->
@@ -201,7 +223,14 @@ Proof.
   { (* true end of input: the EOF token *)
     unfold read_rune in H. cbn in H. inj H. unfold cur_ok. cbn. rewrite len_nil in *.
     rewrite !u32_id by lia. repeat split; try lia; try (intro Hk; discriminate Hk). }
-  rewrite read_rune_cons_full in H. rewrite len_cons in HposL.
+  rewrite len_cons in HposL.
+  destruct (r =? 0) eqn:E0.
+  { (* a NUL byte: the EOF token, nothing consumed *)
+    rewrite (read_rune_nul _ _ _ _ _ E0) in H. cbn [c_pos c_rest c_line c_col] in H.
+    assert (Hk0 : single_kind 0 = Some KEof) by reflexivity. rewrite Hk0 in H. unfold here in H.
+    cbn [c_pos c_rest c_line c_col] in H. inj H. unfold cur_ok. cbn [c_pos c_rest t_start t_end t_kind mk_tok].
+    rewrite len_cons. rewrite !u32_id by lia. repeat split; try lia; try (intro Hk; discriminate Hk). }
+  rewrite (read_rune_cons_full _ _ _ _ _ E0) in H.
   set (line1 := if r =? r_lf then line + 1 else line) in *.
   set (col1 := if r =? r_lf then 1 else col + 1) in *. clearbody line1 col1.
   unfold here in H. cbn [c_pos c_rest c_line c_col] in H.
